@@ -57,12 +57,13 @@ PROPS["C15"] = {
 }
 
 PROPS["C06"] = {
-    "level_text": "Theorems: the Combine fold equals last-matching-rule semantics for EVERY option list / pattern semantics / name; prefix matching is the '/'-boundary relation — proved also of prefixFilter.Filter as REGENERATED from git/ref_filter.go (checked index expression, short-circuit; never panics); @REFGROUP is group membership; the regenerated option table pairs --X/--no-X with the documented patterns. Correspondence: real RefGroupBuilder + pflag parsing + Finish + Categorize in-process vs model vs spec on generated configs x option sequences x reference sets. `Pins.Filter` (REGENERATED statements of git/ref_filter.go's ten combinator methods): `combine_shapes`, `evaluator_shapes`, `regexp_anchored_prefix_empty` — the filter algebra the model mirrors, and the `^(?:…)$` anchoring. `default_from_root_arguments` (regenerated statements): Finish(len(flags.Args()) == 0) turns a still-nil top-level filter into all / no references.",
+    "level_text": "Theorems: the Combine fold equals last-matching-rule semantics for EVERY option list / pattern semantics / name; prefix matching is the '/'-boundary relation — proved also of prefixFilter.Filter as REGENERATED from git/ref_filter.go (checked index expression, short-circuit; never panics); @REFGROUP is group membership; the regenerated option table pairs --X/--no-X with the documented patterns. Correspondence: real RefGroupBuilder + pflag parsing + Finish + Categorize in-process vs model vs spec on generated configs x option sequences x reference sets; and the real binary end to end (e2e: selection options and ROOTs on generated repositories, the census must be the one over the specified selection). `Pins.Filter` (REGENERATED statements of git/ref_filter.go's ten combinator methods): `combine_shapes`, `evaluator_shapes`, `regexp_anchored_prefix_empty` — the filter algebra the model mirrors, and the `^(?:…)$` anchoring. `default_from_root_arguments` (regenerated statements): Finish(len(flags.Args()) == 0) turns a still-nil top-level filter into all / no references.",
     "level_note": "Trusted: Lean kernel; Go's regexp (full-match oracle computed independently of git-sizer); pflag's in-order Set calls (exercised, not modelled); model tied to internal/refopts and git/ref_filter.go by differential testing.",
     "technique": "Lean 4 proof (fold induction) + regenerated option table + differential correspondence",
     "modules": ["GitSizer.Props.C06", "GitSizer.Props.Pins.Filter"],
-    "engines": [{"name": "refs", "quick": 12000, "thorough": 1200000, "per_shard": 3000}],
-    "rule": "refgroup configs (nesting, implicit parents, augmented built-ins, odd symbols) x option sequences of length 0-4 (prefixes cut anywhere, regexps with alternation/anchors/classes, @groups, boolean forms, deprecated spellings) x 3-10 reference names x with/without ROOT; one case in six exercises error branches; non-trivial = the configuration and options were accepted.",
+    "engines": [{"name": "refs", "quick": 12000, "thorough": 1200000, "per_shard": 3000},
+                {"name": "e2e", "quick": 160, "thorough": 8000, "per_shard": 20}],
+    "rule": "e2e: the real binary with generated selection options and ROOTs on generated repositories, census judged over the set the specification selects; refs: refgroup configs (nesting, implicit parents, augmented built-ins, odd symbols) x option sequences of length 0-4 (prefixes cut anywhere, regexps with alternation/anchors/classes, @groups, boolean forms, deprecated spellings) x 3-10 reference names x with/without ROOT; one case in six exercises error branches; non-trivial = the configuration and options were accepted.",
     "assumptions": ["regular-expression semantics = Go regexp on ^(?:p)$"],
 }
 PROPS["C07"] = {
